@@ -26,10 +26,14 @@
       feeds, `\n`, `\r\n` and `//` comments is skipped; a lone `\r` or `/` raises.  Keywords are plain prefixes (no word
       boundary): `(DELAY(ABSOLUTE`, `(DATEx)` and `(DESIGN`top`)` are accepted, `(CELLTYPE` directly below DELAYFILE is
       read as `(CELL` followed by garbage.
-    * where ID (resp. ID_OR_EDGE) is acceptable it is tried FIRST: only a blank stops or precedes a name.  A name starts at
-      any character other than blank, quote (resp. nothing for ID_OR_EDGE), parentheses -- tabs, newlines and `//` become
-      part of the name: `(INSTANCE u1` NEWLINE `)` has the instance name `u1\n`.  If the text starts with a blank, IGNORE_1
-      removes the whole run [\t\f ]+ first.  A quoted ID keeps its quotes; `(..)` of ID_OR_EDGE extends to the first `)`.
+    * where ID (resp. ID_OR_EDGE) is acceptable it is tried FIRST at every position.  Since fix d9c2c16 a plain name is
+      [^`()\s]+ (resp. [^()\s]+; ` = double quote): any white-space character ends it, and a name starts at any other character
+      except parentheses (and the quote, which opens the quoted form) -- so `//` directly in front of a name position is read
+      as a NAME, not as a comment.  Where the name does not match, one ignore token is skipped and the name is tried again:
+      IGNORE_1 = the run [\t\f ]+, or IGNORE_0, which here can only start with a line break and then takes line breaks and
+      `//` comments greedily (so a comment IS skipped directly after a line break).  Other \s characters (\v, \x1c-\x1f,
+      \x85, \xa0, lone \r) are neither name nor ignored: they raise.  A quoted ID keeps its quotes; `(..)` of ID_OR_EDGE
+      extends to the first `)`.
     * where _NOB is acceptable, IGNORE_0 is tried first, then _NOB, which takes everything up to the next parenthesis
       (blanks, newlines and later `//` included).  So `(DATE` NEWLINE `)` raises (nothing is left for _NOB) while `(DATE )`
       is accepted, and a `//` comment at the very beginning of such a region hides parentheses up to the end of the line.
@@ -71,8 +75,11 @@ Definition is_paren (c : ascii) : bool := Ascii.eqb c c_lpar || Ascii.eqb c c_rp
 Definition not_paren (c : ascii) : bool := negb (is_paren c).                                        (* [^()] *)
 Definition not_quote (c : ascii) : bool := negb (Ascii.eqb c c_quote).                               (* not DQ *)
 Definition not_rpar (c : ascii) : bool := negb (Ascii.eqb c c_rpar).                                 (* [^)] *)
-Definition ide_char (c : ascii) : bool := negb (is_paren c || Ascii.eqb c c_sp).                     (* [^() ] *)
-Definition id_char (c : ascii) : bool := ide_char c && not_quote c.                                  (* none of DQ ( ) blank *)
+(* Python's \s on str patterns restricted to code points < 256: \t \n \v \f \r, FS GS RS US (28..31), blank, NEL (133), NBSP (160) *)
+Definition is_ws (c : ascii) : bool :=
+  let n := N_of_ascii c in (((9 <=? n) && (n <=? 13)) || ((28 <=? n) && (n <=? 32)) || (n =? 133) || (n =? 160))%N.
+Definition ide_char (c : ascii) : bool := negb (is_paren c || is_ws c).                              (* [^()\s]  (since fix d9c2c16) *)
+Definition id_char (c : ascii) : bool := ide_char c && not_quote c.                                  (* none of DQ ( ) \s *)
 Definition is_digit (c : ascii) : bool := let n := N_of_ascii c in ((48 <=? n) && (n <=? 57))%N.
 Definition is_numc (c : ascii) : bool := is_digit c || Ascii.eqb c c_minus || Ascii.eqb c c_dot.     (* [-.0-9] *)
 
@@ -114,12 +121,27 @@ Definition expect (p s : string) : option string := drop_prefix p (skip_ign s).
 Definition scan_nob (s : string) : bool * string :=
   let '(w, r) := span not_paren (skip0 s) in (match w with EmptyString => false | _ => true end, r).
 
-(* a state accepting ID / ID_OR_EDGE: the name is tried first; a blank starts IGNORE_1, which takes [\t\f ]+ *)
-Definition id_skip (s : string) : string :=
-  match s with
-  | String c _ => if Ascii.eqb c c_sp then snd (span is_b1 s) else s
-  | EmptyString => s
+(* a state accepting ID / ID_OR_EDGE: the name (a run of characters other than DQ ( ) \s, DQ allowed for ID_OR_EDGE, or the quoted / parenthesised form) is tried FIRST at every
+   position; where it does not match, one ignore token is skipped and the name is tried again: IGNORE_1 takes the run [\t\f ]+ ; IGNORE_0 can
+   only START with a line break here (a `//` would already have been taken as a name) and then takes line breaks AND comments greedily *)
+Fixpoint id_skip_go (fuel : nat) (s : string) : string :=
+  match fuel with
+  | O => s
+  | S f =>
+      match s with
+      | String c r =>
+          if is_b1 c then id_skip_go f (snd (span is_b1 s))
+          else if Ascii.eqb c c_nl then id_skip_go f (skip0 s)
+          else if Ascii.eqb c c_cr then
+            match r with
+            | String c2 _ => if Ascii.eqb c2 c_nl then id_skip_go f (skip0 s) else s
+            | EmptyString => s
+            end
+          else s
+      | EmptyString => s
+      end
   end.
+Definition id_skip (s : string) : string := id_skip_go (S (String.length s)) s.
 Definition q1 : string := String c_quote EmptyString.
 (* [o]: the character that opens the quoted / parenthesised form, [inner]: its body, [cl]: the closing character (the only
    one outside [inner]); [plain]: the characters of the plain form *)
